@@ -75,6 +75,16 @@ def f_multi(o):
     return o.value + 2 * f_child(o) + f_nums(o)
 
 
+def f_mitems(o, idx):
+    # depends on the keys and on WHICH objects are the values (not on their traits); an object outside the pool
+    # (copy.deepcopy of a HasTraits leaves the values of a Dict trait shared with the original) counts as -9
+    return sum((ord(k[-1]) - 90) * (idx.get(id(v), -9) + 1) for k, v in o.m.items())
+
+
+def f_sitems(o, idx):
+    return sum(idx.get(id(v), -9) + 1 for v in o.s) + 50 * len(o.s)
+
+
 def f_inner(o):
     return o.value // 2
 
@@ -96,12 +106,18 @@ PROPS = {
     "kidchild": ("kids.items.child.value", f_kidchild),
     "multi": (["value", "child.value", "nums.items"], f_multi),
     "chain": ("c_inner", f_chain),
+    "mitems": ("m.items", None),
+    "sitems": ("s.items", None),
 }
+IDX = {}          # id(obj) -> pool index of the case being run (for the identity-dependent getters)
+IDFUNS = {"mitems": f_mitems, "sitems": f_sitems}
 
 
 def _mk(name, fn, cached):
     def getter(self):
         bump(self, ("c_" if cached else "u_") + name)
+        if fn is None:
+            return IDFUNS[name](self, IDX)
         return fn(self)
     getter.__name__ = "_get_%s_%s" % ("c" if cached else "u", name)
     return cached_property(getter) if cached else getter
@@ -136,6 +152,7 @@ PATHS = {
     "dict": [["m", "*", "value"]], "set": [["s", "*", "value"]], "nums": [["nums", "*"]],
     "nested": [["child", "kids", "*", "value"]], "kidchild": [["kids", "*", "child", "value"]],
     "multi": [["value"], ["child", "value"], ["nums", "*"]],
+    "mitems": [["m", "*"]], "sitems": [["s", "*"]],
 }
 TCODE = {"value": 1, "other": 2, "child": 3, "kids": 4, "m": 5, "s": 6, "nums": 7}
 
@@ -198,6 +215,9 @@ def run_case(case):
     pname, cached = case["prop"], case["cached"]
     attr = ("c_" if cached else "u_") + pname
     fn = PROPS[pname][1]
+    if fn is None:
+        def fn(o, _f=IDFUNS[pname]):
+            return _f(o, IDX)
     n = case["n"]
     if case.get("kwargs"):
         # state given to the constructor: the observers are installed before the state is set
@@ -230,7 +250,12 @@ def run_case(case):
         events.append([None if event.old is Undefined else canon(event.old), canon(event.new)])
 
     def idx_of():
-        return {id(o): i for i, o in enumerate(pool)}
+        d_ = {id(o): i for i, o in enumerate(pool)}
+        IDX.clear()
+        IDX.update(d_)
+        return d_
+
+    idx_of()
 
     def gcount():
         return GETTER.get((id(pool[0]), attr), 0)
@@ -268,6 +293,7 @@ def run_case(case):
                     newpool = [memo.get(id(o), o) for o in pool]
                     newpool[0] = newroot
                 pool[:] = newpool
+                idx_of()
                 g0, d0 = gcount(), dcount()
             else:
                 # a mutation: ["Set", i, trait, v] / list, dict, set operations
